@@ -24,6 +24,7 @@ type OpC11 struct {
 type CaseC11 struct {
 	Map map[string]interface{} `json:"map"`
 	Ops []OpC11                `json:"ops"`
+	Unrelated uint16           `json:"unrelated_opts,omitempty"`
 }
 
 func init() { register("C11", checkC11) }
@@ -176,6 +177,7 @@ func genC11(t *rapid.T) CaseC11 {
 		applyModel(model, op)
 		c.Ops = append(c.Ops, op)
 	}
+	c.Unrelated = genUnrelated(t)
 	return c
 }
 
@@ -208,6 +210,52 @@ func diffCount(a, b interface{}) int {
 		n := 0
 		for i := range x {
 			n += diffCount(x[i], y[i])
+		}
+		return n
+	}
+	if reflect.DeepEqual(a, b) {
+		return 0
+	}
+	return 1
+}
+
+// diffCountSet counts like diffCount, but an entry that now holds the value just set counts as ONE changed entry
+// even when old and new value are both maps (replacing {"a":..,"n":..} by {"n":..} is one replacement, not two).
+func diffCountSet(a, b, val interface{}) int {
+	if reflect.DeepEqual(b, val) {
+		if reflect.DeepEqual(a, b) {
+			return 0
+		}
+		return 1
+	}
+	switch x := a.(type) {
+	case map[string]interface{}:
+		y, ok := b.(map[string]interface{})
+		if !ok {
+			return 1
+		}
+		n := 0
+		for k, v := range x {
+			if w, ok := y[k]; ok {
+				n += diffCountSet(v, w, val)
+			} else {
+				n++
+			}
+		}
+		for k := range y {
+			if _, ok := x[k]; !ok {
+				n++
+			}
+		}
+		return n
+	case []interface{}:
+		y, ok := b.([]interface{})
+		if !ok || len(x) != len(y) {
+			return 1
+		}
+		n := 0
+		for i := range x {
+			n += diffCountSet(x[i], y[i], val)
 		}
 		return n
 	}
@@ -263,6 +311,8 @@ func checkC11(c CaseC11, info *Info) *Failure {
 		return nil
 	}
 	defer resetOptions()
+	applyUnrelatedOptions(c.Unrelated)
+	info.ClassIf(c.Unrelated != 0, "unrelated options switched on")
 	subject := copyMap(c.Map)
 	model := copyMap(c.Map)
 	mv := mxj.Map(subject)
@@ -343,6 +393,7 @@ func checkC11(c CaseC11, info *Info) *Failure {
 			// the parent is reached through a list: outside "dot-paths through nested maps";
 			// only the frame is enforced (nothing with an error, at most one entry otherwise)
 			info.Unspecified("set below a list (outside nested-map paths): only the frame is enforced")
+			changed = diffCountSet(model, subject, op.Val)
 			if (err != nil && changed != 0) || changed > 1 {
 				return failf("frame-violated", "%s: error %v, %d entries changed: %s", desc, err, changed, canon(subject))
 			}
